@@ -1,7 +1,8 @@
 //! module `faults` — C04: target errors stop drawing immediately and are returned unchanged.
 //!
 //!   faults.shape <shape> <style> <adapter> <native 0|1>
-//!   faults.text <font 0..2> <colour mask> <align> <codepoints> <adapter> <native>
+//!   faults.text <font 0..3 (3 = custom font with character spacing)> <colour mask> <align> <codepoints> <adapter> <native>
+//!   faults.dotted <rect x y w h> <style> <adapter> <native>      rectangle with StrokeStyle::Dotted
 //!   faults.image <bits 1|8|16> <w> <h> <sub 0|1|2> <adapter> <native>
 //!
 //! adapter: 0 none, 1 clipped, 2 translated, 3 cropped, 4 clipped(translated), 5 translated(cropped(clipped)),
@@ -123,12 +124,24 @@ impl Module for M {
                 emit(format!("faults.shape {} {} {} {}", sh, st, i % 6, (i / 6) % 2));
             }
         }
+        // dotted rectangle strokes (square dots below 4 px, circular dots from 4 px)
+        let mut j = 0usize;
+        for (w, h) in [(0u32, 0u32), (1, 5), (5, 1), (3, 3), (8, 8), (9, 14), (20, 11), (30, 30)] {
+            for sw in [1u32, 2, 3, 4, 5, 7] {
+                for a in 0..3 {
+                    for f in ["7", "-"] {
+                        j += 1;
+                        emit(format!("faults.dotted rect -2 1 {} {} {} 9 {} {} {} {}", w, h, f, sw, a, j % 6, (j / 6) % 2));
+                    }
+                }
+            }
+        }
         let n = if quick { 400 } else { 10_000 };
         for _ in 0..n {
             emit(format!("faults.shape {} {} {} {}", random_shape(rng, 20, 24), random_style(rng, 6), rng.below(6), rng.below(2)));
         }
         let strings: [&[u32]; 7] = [&[], &[65], &[65, 66, 32, 67], &[72, 105, 10, 33], &[10, 10], &[65, 13, 10, 66, 10], &[0x1F600, 65]];
-        for font in 0..3 {
+        for font in 0..4 {
             for mask in 0..16 {
                 for (si, s) in strings.iter().enumerate() {
                     for adapter in 0..7 {
@@ -176,8 +189,27 @@ impl Module for M {
                     }
                 })
             }
+            "faults.dotted" => {
+                let shape = Shape::parse(&mut t);
+                let style = embedded_graphics::primitives::PrimitiveStyleBuilder::from(&parse_style(&mut t))
+                    .stroke_style(embedded_graphics::primitives::StrokeStyle::Dotted)
+                    .build();
+                let adapter = t.u32();
+                let native = t.u32() == 1;
+                ctx.count(&format!("dotted:adapter{}", adapter));
+                let Shape::Rect(r) = shape else { panic!("faults.dotted needs a rect") };
+                let s = Styled::new(r, style);
+                if native {
+                    fault_runs!(ctx, "dotted-rect", R2, adapter, d => s.draw(d))
+                } else {
+                    fault_runs!(ctx, "dotted-rect", R1, adapter, d => s.draw(d))
+                }
+            }
             "faults.text" => {
-                let font = [&ascii::FONT_4X6, &ascii::FONT_6X10, &ascii::FONT_9X15][t.usize()];
+                // font 3: a custom font with character spacing (no built-in font has one)
+                let spaced = embedded_graphics::mono_font::MonoFont { character_spacing: 2, ..ascii::FONT_6X10 };
+                let fi = t.usize();
+                let font = if fi == 3 { &spaced } else { [&ascii::FONT_4X6, &ascii::FONT_6X10, &ascii::FONT_9X15][fi] };
                 let mask = t.u32();
                 let align = [Alignment::Left, Alignment::Center, Alignment::Right][t.usize()];
                 let s: String = t.u32_list().into_iter().map(|c| char::from_u32(c).unwrap_or('?')).collect();
